@@ -178,6 +178,13 @@ LAYOUTS = [
     'for {a} in [1]: {b} = {a}; {a} = {b}; def {b}(): pass',
     'x = 1\n\x0c\nimport {a}\ndef {b}(): pass\nclass {c}: pass', '\x0c\nfrom {a} import {b} as {c}\n\x0c\nimport {d}',
     'y = 2\n\x0b\nimport {a} as {b}', 'z = 3 # \x1c\nimport {a}\ndef {b}(): pass',
+    # blanks and continuations around the dots of a dotted import; a later literal use of the dotted name
+    'import {a} . {b}', 'import {c}, {a} . {b}', 'import {a} .{b}, {a}. {c}', 'import {a} \\\n    . {b}\n{a}.{b}',
+    'import {a} . {b} as {c}', 'import {a}.{b}\nimport {a} . {b}\n{a}.{b}', 'from {a} . {b} import {c}',
+    # a '#' inside a string literal earlier on the line of the binding
+    "x = '#'; import {a}", "if x == '#': from {a} import {b} as {c}", 'def {a}({b}="#"): import {c}',
+    # names at column 0 of a continuation line
+    'import {a}, \\\n{b}', 'from {a} import (\n{b},\n{c})', 'def \\\n{a}(): pass', 'class \\\n{a}: pass',
 ]
 NAMES = ['a', 'b', 'os', 'sys', 'x', 'foo', 'bar_1', 'de', 'd', 'def_', 'imp', 'as_', 'A', 'Cls', 'port', 'rom', 'f', 'e', 'n', '_p']
 
